@@ -24,9 +24,10 @@ func init() {
 			"Added after blind round 5: no encoder field value is narrowed below its field width; the decoder's minimum length is not above the encoder's smallest payload; every non-failing exit of EngineApplier.Apply returns the result of the mode-specific apply (no 'seen already' shortcut). " +
 			"Added after blind round 7: applied-prefix-is-recorded: on every path from a successful apply callback to a failing exit of ApplyEntries the applier's position has been advanced — violated on this tree (open finding with demo: the prefix of a failed batch is applied again by the retry). " +
 			"Added after blind round 8: an apply function that ends in a call of the engine returns that call's error (directly or after a check): a storage failure on the replica may not be turned into 'applied'. " +
-			"Added after blind round 9: NewWALBatchApplier stores startSeq+1 to expectedNextSeq (a resumed applier that expects 1 re-applies the whole log on top of its state).",
+			"Added after blind round 9: NewWALBatchApplier stores startSeq+1 to expectedNextSeq (a resumed applier that expects 1 re-applies the whole log on top of its state). " +
+			"Added after blind round 10: no try-lock fallbacks; a wrapper around the entry applier advances a position of its own only behind the wrapped Apply's success.",
 		NotDecided: "all delivery schedules (reordering, duplication, overlap of push and poll, reconnects); equality of replica state with a primary prefix; the primary's choice of what to send.",
-		Rules:      []func(*Ctx, *Reporter){ruleReplCursor, ruleReplCursorWriters, ruleReplReported, ruleReplEntryCodec, ruleReplCompressionFlag, ruleReplApplyBypass, ruleReplCompressionSiblings, ruleReplApplierWiring, ruleApplierAlwaysApplies, ruleAppliedPrefixRecorded, ruleApplierPropagatesErrors, ruleApplierStartsBehindItsPosition},
+		Rules:      []func(*Ctx, *Reporter){ruleReplCursor, ruleReplCursorWriters, ruleReplReported, ruleReplEntryCodec, ruleReplCompressionFlag, ruleReplApplyBypass, ruleReplCompressionSiblings, ruleReplApplierWiring, ruleApplierAlwaysApplies, ruleAppliedPrefixRecorded, ruleApplierPropagatesErrors, ruleApplierStartsBehindItsPosition, ruleNoTryLockFallbacks, ruleApplierWrappersRecordAfterApply},
 	})
 }
 
